@@ -129,7 +129,8 @@ def validate_traces(run, traces, label):
     res = tlc.validate_many([t for t, _ in traces], module="SLGTrace")
     for (t, rp), r in zip(traces, res):
         if r is None: raise ToolError("trace validation did not run")
-        if r[0]: run.traces += 1
+        if r[0]:
+            if r[2] != "skipped": run.traces += 1
         else:
             ev = t[r[1] - 1] if r[1] and 0 < r[1] <= len(t) else {}
             if "timeout" in (r[2] or ""): raise ToolError("trace validation timed out")
